@@ -96,9 +96,25 @@ def run(chk):
         bad = sorted(x for x in sites if (x[0], x[1]) not in allowed)
         chk.check(not bad, 'C13-R3', PS, 'calc_power', f'argument {p} is only modified by the periodic wrap',
                   f'{len(sites)} in-place store site(s): {sorted({(x[1]) for x in sites})}',
-                  f'{p} is modified in place by ' + '; '.join(f'{x[1]} ({x[0].split("/")[-1]}:{x[2]}): {x[3]}' for x in bad[:3]) +
+                  f'{p} is modified in place by ' + '; '.join(f'{x[1]} ({x[0].split("/")[-1]}:{src.orig_line(x[0], x[2])}): {x[3]}' for x in bad[:3]) +
                   ': a second use of the same array (pos2 is pos, interlacing\'s second painting, a repeated call) sees shifted particles, so cross != auto',
                   node=fn, nf=sorted(f'{x[1]}:{x[3]}' for x in sites))
+    # objects handed to both field transforms (the window W, the mesh parameters) must come back unchanged from the first
+    for q_ in ('get_field_fft', 'get_interlaced_field_fft', 'get_field'):
+        if not src.has_func(PS, q_):
+            continue
+        sq = fl.summary(PS, q_)
+        if sq is None:
+            continue
+        for p_ in sq.params:
+            if p_ in ('pos',):
+                continue
+            st_ = sq.sites.get(p_, set())
+            bad_ = sorted(x for x in st_ if (x[0], x[1]) not in allowed)
+            chk.check(not bad_, 'C13-R3', PS, q_, f'argument {p_} is not modified', '',
+                      f'{q_} modifies its argument {p_} in place: ' + '; '.join(f'{x[1]} ({x[0].split("/")[-1]}:{src.orig_line(x[0], x[2])}): {x[3]}' for x in bad_[:2]) +
+                      ': calc_power passes the same object to the transform of the second field, which then sees the modified values (cross != auto)',
+                      node=src.func(PS, q_), nontrivial=False)
     # ---- R2
     for rel, q in PARALLEL:
         fnq = src.func(rel, q)
